@@ -223,6 +223,10 @@ func (kt *Keytab) Unmarshal(b []byte) error {
 	if kt.version == 1 && isNativeEndianLittle() {
 		endian = binary.LittleEndian
 	}
+	if len(b) == 2 {
+		// Header only: a keytab with no entries (this is what Marshal writes for an empty keytab).
+		return nil
+	}
 	// n tracks position in the byte array
 	n := 2
 	l, err := readInt32(b, &n, &endian)
